@@ -1307,6 +1307,12 @@ func genRun(r *hx.Rng, idx int, thorough bool, cap int) *runSpec {
 	if idx == 3 {
 		return brokenProjectRun(r)
 	}
+	if idx == 4 {
+		// the fatal-error scenario through Linter.Lint (content given by the caller)
+		rs := directedRun(r, 1)
+		rs.Entry = "lint"
+		return rs
+	}
 	if idx == 2 {
 		return gridRun(r, idx)
 	}
